@@ -885,7 +885,9 @@ func (a *typedArrayObject) _defineIdxProperty(idx int, desc PropertyDescriptor, 
 			a.val.runtime.typeErrorResult(throw, "Invalid typed array index")
 			return false
 		}
-		a._putIdx(idx, desc.Value)
+		if desc.Value != nil {
+			a._putIdx(idx, desc.Value)
+		}
 		return true
 	}
 	return ok
